@@ -8,7 +8,8 @@ on the bound patterns of one constraint / design variable and on callback traces
 def getVariant? (j : Json) : Option Variant := do
   pure { rebind := (← fieldBool? j "rebind"), lastOnly := (← fieldBool? j "lastOnly"),
          linRow0 := (← fieldBool? j "linRow0"), negNew := (← fieldBool? j "negNew"),
-         noSwap := (← fieldBool? j "noSwap") }
+         noSwap := (← fieldBool? j "noSwap"), noSync := (← fieldBool? j "noSync"),
+         noFinalSync := (← fieldBool? j "noFinalSync") }
 
 def fn (l : List Rat) : Nat → Rat := fun j => l.getD j 0
 
@@ -48,7 +49,10 @@ def handleCon (j : Json) : Option Json := do
   let common := [("lower_s", jRats los), ("upper_s", jRats his),
     ("equals_s", match eqs with | some e => jRats e | none => Json.null),
     ("elem_ok", jArr (jArr jBool) elemOk)]
-  let unset := fun (i : Nat) => decide (fn lo i ≤ -inf)
+  -- `_congradfunc` decides the sign from `meta['lower']` (model units); the repaired code, which
+  -- exchanges the scaled bounds under a negative scaler, has to look at the scaled lower bound
+  let unset := fun (i : Nat) =>
+    if v.noSwap then decide (fn lo i ≤ -inf) else decide (fn los i ≤ -inf)
   match style with
   | "old" =>
     let recs := oldRecords v inf c
@@ -67,7 +71,10 @@ def handleCon (j : Json) : Option Json := do
           | .nl i l u => ("nl", i, l, u)
           | .lin i l u => ("lin", i, l, u)
         jObj [("t", jStr t), ("idx", jNat idx), ("lb", jRat lb), ("ub", jRat ub),
-          ("sign", jInt (congradSign v true eq.isSome (unset idx) false)),
+          -- `_congradfunc` serves the NonlinearConstraints; a LinearConstraint gets the raw rows
+          ("sign", jInt (match r with
+            | .nl _ _ _ => congradSign v true eq.isSome (unset idx) false
+            | .lin _ _ _ => 1)),
           ("v", jRats ((gs.zip axs).map fun (g, ax) => newValue (fn g) (fn ax) r)),
           ("sat", jArr jBool ((gs.zip axs).map fun (g, ax) =>
             decide (newSat tol (fn g) (fn ax) r)))]
@@ -110,9 +117,11 @@ def handleTrace (j : Json) : Option Json := do
       | _ => none
     | _ => none
   let s0 ← fieldNat? j "start"
-  let r := run (⟨s0, none⟩ : St Nat) calls
+  let v ← field? j "variant" >>= getVariant?
+  let xr ← fieldNat? j "result"
+  let r := run v (⟨s0, none⟩ : St Nat) calls
   pure (jObj [("ok", jBool true), ("obj_first", jBool (decide (ObjFirst s0 none calls))),
-    ("answered_at", jNats r.1), ("final", jNat r.2.model),
+    ("answered_at", jNats r.1), ("final", jNat (finish v r.2 xr).model),
     ("pure", jBool (decide (r.1 = calls.map Call.arg)))])
 
 def handle (j : Json) : Option Json := do
